@@ -265,3 +265,7 @@ func BlobLens(min, max int) {}
 
 // BitLen returns the minimum number of bits needed to represent a (0 for zero).
 func (a W256) BitLen() uint { return uint(a.big().BitLen()) }
+
+// Concrete returns v; the engine forks the path over every feasible value of v (case split), so
+// that code depending on it afterwards sees a constant. Natively the identity.
+func Concrete(v uint64) uint64 { return v }
